@@ -40,11 +40,34 @@ PenRun(ops, tol) ==
        [] op.op = "L" -> IF ~Near(op.b, st.y, tol) THEN [st EXCEPT !.bad = TRUE] ELSE
                          LET cs == SegCells(st.x, st.y, op.a - st.x, tol) IN
                          IF cs = <<>> THEN [st EXCEPT !.bad = TRUE, !.x = op.a] ELSE [st EXCEPT !.x = op.a, !.cells = @ \o cs]
+       [] op.op = "H" -> LET cs == SegCells(st.x, st.y, op.a - st.x, tol) IN          \* absolute horizontal line
+                         IF cs = <<>> THEN [st EXCEPT !.bad = TRUE, !.x = op.a] ELSE [st EXCEPT !.x = op.a, !.cells = @ \o cs]
        [] OTHER -> [st EXCEPT !.bad = TRUE],
      [x |-> 0, y |-> 0, sx |-> 0, sy |-> 0, cells |-> <<>>, bad |-> FALSE], ops)
-RectOf(ops) == IF Len(ops) = 5 /\ ops[1].op = "M" /\ ops[2].op = "h" /\ ops[3].op = "v" /\ ops[4].op = "h" /\ ops[5].op = "z"
-                  /\ ops[4].a = -ops[2].a
-               THEN <<ops[1].a, ops[1].b, ops[2].a, ops[3].a>> ELSE <<>>
+\* a closed path of axis-parallel segments whose vertices are exactly the four corners of a rectangle (any of M m h H v V l L z):
+\* << x, y, width, height >> of the rectangle, << >> otherwise
+PolyVertices(ops) ==
+  FoldLeft(LAMBDA st, op :
+     LET to(nx, ny) == IF nx # st.x /\ ny # st.y THEN [st EXCEPT !.bad = TRUE] ELSE [st EXCEPT !.x = nx, !.y = ny, !.vs = Append(@, <<nx, ny>>)] IN
+     CASE op.op = "M" -> [st EXCEPT !.x = op.a, !.y = op.b, !.vs = Append(@, <<op.a, op.b>>), !.bad = @ \/ st.vs # <<>>]
+       [] op.op = "m" -> [st EXCEPT !.x = @ + op.a, !.y = @ + op.b, !.vs = Append(@, <<st.x + op.a, st.y + op.b>>), !.bad = @ \/ st.vs # <<>>]
+       [] op.op = "h" -> to(st.x + op.a, st.y)
+       [] op.op = "H" -> to(op.a, st.y)
+       [] op.op = "v" -> to(st.x, st.y + op.a)
+       [] op.op = "V" -> to(st.x, op.a)
+       [] op.op = "l" -> to(st.x + op.a, st.y + op.b)
+       [] op.op = "L" -> to(op.a, op.b)
+       [] op.op \in {"z", "Z"} -> [st EXCEPT !.closed = TRUE]
+       [] OTHER -> [st EXCEPT !.bad = TRUE],
+     [x |-> 0, y |-> 0, vs |-> <<>>, bad |-> FALSE, closed |-> FALSE], ops)
+RectOf(ops) ==
+  LET p == PolyVertices(ops) IN
+  IF p.bad \/ Len(p.vs) < 4 \/ ~(p.closed \/ p.vs[Len(p.vs)] = p.vs[1]) THEN <<>> ELSE
+  LET xs == {p.vs[i][1] : i \in 1..Len(p.vs)} ys == {p.vs[i][2] : i \in 1..Len(p.vs)} IN
+  IF Cardinality(xs) # 2 \/ Cardinality(ys) # 2 \/ Cardinality({p.vs[i] : i \in 1..Len(p.vs)}) # 4 THEN <<>> ELSE
+  LET x0 == CHOOSE x \in xs : \A z \in xs : x <= z  x1 == CHOOSE x \in xs : \A z \in xs : x >= z
+      y0 == CHOOSE y \in ys : \A z \in ys : y <= z  y1 == CHOOSE y \in ys : \A z \in ys : y >= z
+  IN <<x0, y0, x1 - x0, y1 - y0>>
 SeqSet(s) == {s[i] : i \in 1..Len(s)}
 FlipRows(cells, rows) == [i \in 1..Len(cells) |-> <<rows - 1 - cells[i][1], cells[i][2]>>] \o <<>>
 
